@@ -15,6 +15,7 @@ int val(const std::string& s) { return std::atoi(s.c_str()); }
 
 thread_local ExecImpl* g_cur = nullptr;
 Globals& globals() { static Globals g; return g; }
+volatile int g_last_op_kind = -1;
 
 // ---------------- clause hooks ----------------
 static CallCtx* top_ctx() {
@@ -131,6 +132,7 @@ void ExecImpl::run(const Plan& p) {
 void ExecImpl::step(const Op& op, bool nested) {
   if (stop) return;
   ++depth;
+  if (!shadow) g_last_op_kind = op.kind;
   if (!nested) ++st.ops[op.kind];
   {
     std::ostringstream os;
